@@ -694,6 +694,77 @@ def special_layout_suite(ctx, density=False):
     ctx.ob(ob, ok, "search", "" if ok else "a special layout or history is mis-executed")
 
 
+# ---------------------------------------------------------------------------------------------
+# one matrix, many memory layouts
+
+
+LAYOUTS = {
+    "c-order": "np.ascontiguousarray(u)",
+    "fortran": "np.asfortranarray(u)",
+    "transposed-view": "np.ascontiguousarray(u.T).T",
+    "conj-of-transposed-view": "np.conj(np.ascontiguousarray(np.conj(u)).T).T",
+    "strided-slice": "np.kron(u, np.ones((2, 2)))[::2, ::2]",
+    "fortran-strided-slice": "np.asfortranarray(np.kron(u, np.ones((2, 2))))[::2, ::2]",
+}
+# how the gate is derived from `gates.Unitary(a, *ts)`; `m` is the matrix it must apply to ts
+DERIVED = {
+    "plain": ("gates.Unitary(a, *ts).controlled_by(*cs)", "u"),
+    "dagger-of-controlled": ("gates.Unitary(a, *ts).controlled_by(*cs).dagger()", "np.conj(u.T)"),
+    "controlled-of-dagger": ("gates.Unitary(a, *ts).dagger().controlled_by(*cs)", "np.conj(u.T)"),
+    "dagger-twice": ("gates.Unitary(a, *ts).controlled_by(*cs).dagger().dagger()", "u"),
+}
+
+
+def unitary_layout_suite(ctx, density=False):
+    """`gates.Unitary` built from the SAME matrix held in different memory layouts (C order,
+    Fortran order, transposed / strided views), on 1-2 targets in any order with
+    0-2 controls, also through `dagger()`: the operator applied is the matrix, whatever its
+    strides are"""
+    prop = "C02" if density else "C01"
+    ob = f"{prop}_search_unitary_memory_layout"
+    rng = ctx.rng
+    ok = True
+    combos = [(lay, der, nc) for lay in LAYOUTS for der in DERIVED for nc in (0, 1, 2)]
+    if not ctx.thorough:
+        combos = [c for c in combos if c[1] == "plain"] + rng.sample([c for c in combos if c[1] != "plain"], 16)
+    for lay, der, nc in combos:
+        k = rng.randint(1, 2)
+        n = k + nc + rng.randint(0, 2)
+        qs = rng.sample(range(n), k + nc)
+        ts, cs = qs[:k], qs[k:]
+        u = _haar(rng, 2**k)
+        gsrc, msrc = DERIVED[der]
+        if not cs:
+            gsrc = gsrc.replace(".controlled_by(*cs)", "")
+        seed = rng.randint(0, 2**31)
+        body = (f"DENSITY = {density}\nn = {n}; ts = {ts}; cs = {cs}\nu = {arr(u)}\na = {LAYOUTS[lay]}\n"
+                f"g = {gsrc}\nm = {msrc}\n"
+                f"r = np.random.default_rng({seed}); psi = r.normal(size=2 ** n) + 1j * r.normal(size=2 ** n); psi /= np.linalg.norm(psi)\n"
+                "c = Circuit(n, density_matrix=DENSITY)\nc.add(gates.H(0)); c.add(g)\n"
+                f"ops = [({_H}, [0]), (ctrl(m, len(cs)), cs + ts)]\n"
+                "out = np.asarray(nb.execute_circuit(c, initial_state=dm_of(psi) if DENSITY else psi.copy()).state())\n"
+                "ref = ref_run(n, ops, psi); ref = dm_of(ref) if DENSITY else ref\nd = np.abs(out - ref).max()\n"
+                "full = np.array([ref_run(n, ops, e) for e in np.eye(2 ** n)]).T\ndu = np.abs(np.asarray(c.unitary(nb)) - full).max()\n")
+        ctx.case(("unitary-layout", lay, der, nc, k))
+        ctx.stat("unitary_layout")
+        env = dict(ns())
+        try:
+            exec(body, env)  # noqa: S102
+        except Exception as e:  # noqa: BLE001
+            ok = False
+            _fail(ctx, f"unitary-layout:raises:{lay}", f"{type(e).__name__}: {e}", body + "sys.exit(0)\n", ob)
+            continue
+        if not env["d"] < 1e-9:
+            ok = False
+            ctx.fail(f"unitary-layout:{lay}:{nc}", f"{gsrc} with a = {LAYOUTS[lay]} (targets {ts}, controls {cs}, {n} qubits): the executed state differs by {env['d']:.3e} from the embedded controlled matrix",
+                     PRE + body + "print(d)\nsys.exit(0 if d < 1e-9 else 1)\n", expected="max |out - ref| < 1e-9", observed=f"{env['d']:.3e}", broken=[ob])
+        if not env["du"] < 1e-9:
+            ok = False
+            ctx.fail(f"unitary-layout:unitary:{lay}:{nc}", f"Circuit.unitary() of [H(0), {gsrc}] with a = {LAYOUTS[lay]} (targets {ts}, controls {cs}) differs by {env['du']:.3e} from the embedded controlled matrix",
+                     PRE + body + "print(du)\nsys.exit(0 if du < 1e-9 else 1)\n", expected="max |unitary - ref| < 1e-9", observed=f"{env['du']:.3e}", broken=[ob])
+    ctx.ob(ob, ok, "search", "" if ok else "a Unitary is applied wrongly depending on the memory layout of its array")
+
+
 def run_suites(ctx, density=False):
     qulacs_suite(ctx, density)
     wide_suite(ctx, density)
@@ -704,3 +775,4 @@ def run_suites(ctx, density=False):
     hooks_suite(ctx, density)
     views_suite(ctx, density)
     special_layout_suite(ctx, density)
+    unitary_layout_suite(ctx, density)
